@@ -472,14 +472,18 @@ static void add_line_numbers(Token *tok) {
   char *p = current_file->contents;
   int n = 1;
 
-  do {
+  // Walk up to the last token rather than to the first NUL byte: a
+  // NUL inside a comment does not end the token list.
+  while (tok) {
     if (p == tok->loc) {
       tok->line_no = n;
       tok = tok->next;
+      continue;
     }
     if (*p == '\n')
       n++;
-  } while (*p++);
+    p++;
+  }
 }
 
 Token *tokenize_string_literal(Token *tok, Type *basety) {
